@@ -188,7 +188,7 @@ Proof.
       as (q' & st & d & Tia & Ting & Text & Vq & Dt & Er).
     exists [], st, q', r, d. replace (n - 1)%nat with k by lia. cbn [app].
     split; [exact Er|]. split; [|split; assumption].
-    cbn [map crossed flat_map]. unfold crossed_step. rewrite Ting, Text, Tia.
+    cbn [map fst]. unfold crossed. cbn [flat_map]. unfold crossed_step. rewrite Ting, Text, Tia.
     replace (k - k)%nat with 0%nat by lia. cbn [ifs_from seq flat_map]. unfold pre.
     destruct ing; now rewrite ?app_nil_r.
   - assert (Hk1 : (S k < n)%nat) by lia.
@@ -202,13 +202,11 @@ Proof.
       destruct (IH (S (eff k)) f q' (InExt (tr_in p (S (eff k)))) (in_rtr (S (eff k))))
         as (tr0 & stf & qf & rtr & d & Er' & Cr & Dt & Vf); try assumption; try lia.
       { right. replace (S (eff k) - 1)%nat with (eff k) by lia. repeat split; [lia|assumption]. }
-      { intros; lia. }
-      { reflexivity. }
       unfold ext_loc in Er. rewrite Er' in Er.
       exists ((st, q') :: tr0), stf, qf, rtr, d.
       split; [exact Er|]. split; [|split; assumption].
       change (((st, q') :: tr0) ++ [(stf, qf)]) with ((st, q') :: (tr0 ++ [(stf, qf)])).
-      cbn [map crossed flat_map]. fold (crossed (map fst (tr0 ++ [(stf, qf)]))). rewrite Cr.
+      cbn [map fst]. unfold crossed in *. cbn [flat_map]. rewrite Cr.
       unfold crossed_step. rewrite Ting, Text, Tia, Teg.
       rewrite (ifs_from_eff k Hk1 Hn C). rewrite Iae. unfold pre.
       destruct ing; cbn [app]; reflexivity.
@@ -221,9 +219,9 @@ Proof.
       destruct f as [|f]; [lia|].
       assert (En : entry p (eff k) = k).
       { unfold ForwardStep.eff in *. destruct (crosses p k) eqn:Ck; cbn [orb] in *.
-        - now apply (entry_same mac t p HG).
+        - now apply (entry_same mac t now p pp HG Hep Hexp).
         - replace (Nat.eqb (S k) n) with false in * by (symmetry; apply Nat.eqb_neq; lia).
-          now apply (entry_junction mac t p HG). }
+          now apply (entry_junction mac t now p pp HG Hep Hexp). }
       assert (As0 : asof k = asof (eff k)).
       { unfold as_of. now rewrite Iae. }
       assert (Hne : in_rtr k <> eg_rtr (eff k)).
@@ -234,15 +232,92 @@ Proof.
       destruct (IH (S (eff k)) f q2 (InExt (tr_in p (S (eff k)))) (in_rtr (S (eff k))))
         as (tr0 & stf & qf & rtr & d & Er' & Cr & Dt & Vf); try assumption; try lia.
       { right. replace (S (eff k) - 1)%nat with (eff k) by lia. repeat split; [lia|assumption]. }
-      { intros; lia. }
-      { reflexivity. }
       unfold ext_loc in Er. rewrite Er' in Er. rewrite Iae in Er.
       exists ((st, q') :: (st2, q2) :: tr0), stf, qf, rtr, d.
       split; [exact Er|]. split; [|split; assumption].
       change (((st, q') :: (st2, q2) :: tr0) ++ [(stf, qf)]) with ((st, q') :: (st2, q2) :: (tr0 ++ [(stf, qf)])).
-      cbn [map crossed flat_map]. fold (crossed (map fst (tr0 ++ [(stf, qf)]))). rewrite Cr.
+      cbn [map fst]. unfold crossed in *. cbn [flat_map]. rewrite Cr.
       unfold crossed_step. rewrite Ting, Text, Tia, Ting2, Text2, Tia2, Teg2.
       rewrite (ifs_from_eff k Hk1 Hn C). unfold pre. rewrite Eing. cbn [app]. reflexivity.
 Qed.
 
+(** * From the source host *)
+Lemma start_loc_render :
+  start_loc t (render p pp 0 false) = Some (mkLoc (ia p 0) (eg_rtr 0) InInt).
+Proof.
+  pose proof (n_ge2 _ _ _ HG) as N2.
+  destruct (as_of_ok _ _ _ HG 0 ltac:(lia)) as [A0 I0].
+  pose proof (cross0 mac t now p pp HG Hep Hexp) as C0.
+  destruct (link_fact _ _ _ HG 0 ltac:(lia) C0) as (Ff & _).
+  unfold start_loc, first_egress.
+  change (p_src_ia (render p pp 0 false)) with (pp_src_ia pp).
+  pose proof Hep as E. unfold endpoints_ok in E.
+  apply andb_true_iff in E as [E _]. apply andb_true_iff in E as [E _].
+  apply andb_true_iff in E as [Es _]. apply N.eqb_eq in Es. rewrite Es, A0.
+  change (p_curr_hf (render p pp 0 false)) with (N.of_nat 0).
+  change (p_curr_inf (render p pp 0 false)) with (N.of_nat (js 0)).
+  rewrite (info_render p pp 0 false (js 0)) by (apply (js_lt p Hs); lia).
+  rewrite (hop_render p pp 0 false 0) by lia.
+  rewrite (rinfo_consdir p 0 0 false). fold (tr_eg p 0).
+  change (if cons p 0 then h_eg (rhop (hop p 0)) else h_in (rhop (hop p 0))) with (tr_eg p 0).
+  rewrite Ff. now rewrite I0.
+Qed.
+
+Lemma eff_0 : eff 0 = 0%nat.
+Proof. unfold ForwardStep.eff. now rewrite (cross0 mac t now p pp HG Hep Hexp). Qed.
+
+Lemma last_snoc {A} (l : list A) x : nth_error (l ++ [x]) (length (l ++ [x]) - 1) = Some x.
+Proof.
+  rewrite app_length. cbn [length]. replace (length l + 1 - 1)%nat with (length l) by lia.
+  rewrite nth_error_app2 by lia. now rewrite Nat.sub_diag.
+Qed.
+
+(** the main lemma of C02, on the recorded walk *)
+Lemma run_prov :
+  exists tr rtr d,
+    run macq t now (mkLoc (ia p 0) (eg_rtr 0) InInt) (render p pp 0 false) =
+      (tr, Delivered (ia p (n - 1)) rtr (fst d) (snd d)) /\
+    crossed (map fst tr) = interfaces p /\
+    deliver_target (asof (n - 1)) pp = Some d /\
+    delivered_pkt (tr, Delivered (ia p (n - 1)) rtr (fst d) (snd d)) = Some (render p pp (n - 1) true).
+Proof.
+  pose proof (n_ge2 _ _ _ HG) as N2.
+  destruct (walk_from_arrive n 0 (fuel_for (render p pp 0 false)) (render p pp 0 false) InInt (eg_rtr 0))
+    as (tr0 & stf & qf & rtr & d & Er & Cr & Dt & Vf).
+  - lia.
+  - lia.
+  - apply view_render.
+  - left. auto.
+  - intros _. now rewrite eff_0.
+  - intros; lia.
+  - unfold fuel_for. rewrite (num_hops_render p pp Hs). rewrite Nat2N.id. lia.
+  - exists (tr0 ++ [(stf, qf)]), rtr, d. split; [exact Er|]. split; [|split; [exact Dt|]].
+    + rewrite Cr. cbn [pre app]. now rewrite Nat.sub_0_r.
+    + unfold delivered_pkt. cbn [fst snd]. rewrite last_snoc. cbn [option_map snd].
+      f_equal. now apply (view_full p pp Hs).
+Qed.
+
 End Walk.
+
+(** * C02 main lemma *)
+Theorem forward_prov mac t now p pp :
+  wf_topo t = true -> all_up t = true -> wf_prov_b (macq_of mac) t p = true ->
+  endpoints_ok t p pp = true -> all_unexpired now p = true ->
+  exists tr rtr d a,
+    walk_from (macq_of mac) t now (render p pp 0 false) (render p pp 0 false) =
+      (tr, Delivered (pp_dst_ia pp) rtr (fst d) (snd d)) /\
+    crossed tr = interfaces p /\
+    find_as t (pp_dst_ia pp) = Some a /\ deliver_target a pp = Some d.
+Proof.
+  intros Hwt Hup Hwf Hep Hexp.
+  assert (HG : good mac t p) by (repeat split; assumption).
+  destruct (run_prov mac t now p pp HG Hep Hexp) as (tr & rtr & d & Er & Cr & Dt & _).
+  pose proof (n_ge2 _ _ _ HG) as N2.
+  destruct (as_of_ok _ _ _ HG (nhops p - 1) ltac:(lia)) as [A I].
+  pose proof Hep as E. unfold endpoints_ok in E.
+  apply andb_true_iff in E as [E _]. apply andb_true_iff in E as [E _].
+  apply andb_true_iff in E as [_ Ed]. apply N.eqb_eq in Ed.
+  exists (map fst tr), rtr, d, (as_of t p (nhops p - 1)).
+  unfold walk_from. rewrite (start_loc_render mac t now p pp HG Hep Hexp).
+  unfold forward. rewrite Er. cbn [fst snd]. rewrite Ed. repeat split; assumption.
+Qed.
